@@ -833,6 +833,7 @@ def mon_capi(case, obs):
         if not parts[0].startswith('D:') or not parts[-1].startswith('D:'):
             return 'the machine was left poisoned: %s ... %s' % (parts[0][:20], parts[-1][:20])
         pre, post = parse_snap(parts[0]), parse_snap(parts[-1])
+        tail_ix = [i for i, s in enumerate(spec) if s.startswith('!')]
         spec = [s[1:] if s.startswith('!') else s for s in spec]      # '!': sequential tail after the threads
         thr_ops = [s.split(',') if s else [] for s in spec]
         thr_out = [p.split(',') if p else [] for p in parts[1:-1]]
@@ -854,6 +855,20 @@ def mon_capi(case, obs):
                     enq[0 if name == 'qa' else 1][ti].append(int(op.split(':')[1], 16))
                 if name in ('pa', 'pb') and res.startswith('0:'):
                     polled[0 if name == 'pa' else 1].append((ti, int(res[2:], 16)))
+        # the sequential tail runs alone: between two calls nothing steps the machine, so the dirty query must keep
+        # answering the same until the frame is fetched (which alone resets it), and 0 after that
+        for ti in tail_ix:
+            last = None
+            for op, res in zip(thr_ops[ti], thr_out[ti]):
+                name = op.split(':')[0]
+                if name == 'dirty':
+                    if last is not None and res != last:
+                        return 'tail: dirty answered %s and then %s with no step, write or frame fetch in between' % (last, res)
+                    last = res
+                elif name == 'vram':
+                    last = '0'
+                elif name in ('step', 'loop', 'init'):
+                    last = None
         stepped = any(o.split(':')[0] in ('step', 'loop') for o in thr_ops[0])
         boot = sum(1 for o in thr_ops[0] if o.startswith('loop')) > 1000
         for ch in (0, 1):
